@@ -1295,6 +1295,19 @@ func (c *Ctx) akaScalingRule(r *Report, prefix string, um *ssa.Function, setCase
 				}
 				which = append(which, "default")
 			}
+			// C12 quantifies over every byte string the decoder accepts: there the domain of an arm is whatever
+			// length octet reaches the scaling under the arm's own guards (a guard such as `length != 5 -> error`
+			// pins it; no guard leaves the whole octet)
+			if strings.HasPrefix(prefix, "C12") {
+				_, ghi := f.bounds(f.LFOf(lenOp), f.refine(f.FactsAt(b)))
+				if ghi > 255 {
+					ghi = 255
+				}
+				if ghi > need || len(which) > 0 {
+					need = ghi
+				}
+				which = append(which, "as accepted")
+			}
 			sort.Strings(which)
 			_, thi, isInt := f.typeRange(bo.Type())
 			n++
